@@ -99,7 +99,8 @@ def cases(draw, tier):
         elif kind == "refarr":
             op["mode"] = draw(st.sampled_from(["none", "data", "data", "existing", "existing", "write"]))
         ops.append(op)
-    return {"h": h, "value": value, "ops": ops, "place": draw(st.sampled_from(["default", "numpy", "numpy"])), "cap": draw(st.sampled_from([0, 64, 1024]))}
+    return {"h": h, "value": value, "ops": ops, "place": draw(st.sampled_from(["default", "numpy", "numpy"])), "cap": draw(st.sampled_from([0, 64, 1024])),
+            "inside_region": draw(st.integers(0, 3)) == 0}
 
 
 def strategy(tier):
@@ -207,7 +208,20 @@ def run_case(case):
     ctxC = xo.ContextCpu()
     Cbuf = BufferNumpy(capacity=64, context=ctxC)
     kw = sut(hybgen.init_kwargs, hn, case["value"])
-    obj = sut(lambda: hn.cls(**kw, **({"_buffer": A} if A is not None else {})))
+    owned_region = None
+    if A is not None and case.get("inside_region"):
+        # the object is placed at an explicit offset INSIDE a larger region the caller allocated and keeps: it does not own
+        # its storage (moving it away later must not hand that storage out again)
+        probe = sut(lambda: hn.cls(**kw))
+        if is_raised(probe):
+            return fail("construct_raised", f"{probe}", probe.key, labels)
+        sz_ = int(probe._xobject._size)
+        reg_ = int(A.allocate(sz_ + 32))
+        owned_region = (reg_, reg_ + sz_ + 32)
+        obj = sut(lambda: hn.cls(**kw, _buffer=A, _offset=reg_ + 16))
+        labels.add("object_inside_a_region_of_the_caller")
+    else:
+        obj = sut(lambda: hn.cls(**kw, **({"_buffer": A} if A is not None else {})))
     if is_raised(obj):
         return fail("construct_raised", f"{obj}", obj.key, labels)
     if A is None:
@@ -437,6 +451,13 @@ def run_case(case):
                         return fail("move_wrong_context", f"{step}", dest, labels)
                     labels.add("op:move_ok")
                     did_structural = True
+                    if owned_region is not None and e is entries[0] and before[0] is A:
+                        p_ = sut(A.allocate, 8)
+                        if is_raised(p_):
+                            return fail("allocate_raised", f"{step}: {p_}", p_.key, labels)
+                        if owned_region[0] <= int(p_) < owned_region[1]:
+                            return fail("moved_object_storage_handed_out_again", f"{step}: the object lived at an explicit offset inside the caller's region {owned_region}; after move() allocate(8) on the old buffer returned {int(p_)}, inside that region", "", labels)
+                        labels.add("allocation_after_move_away_from_callers_region")
         elif kind == "assign":
             slots = [(path, cn, cm, f) for path, cn, cm in conts for f in cn.h["fields"] if f["t"]["k"] in ("hybrid", "ref")]
             if not slots:
